@@ -107,8 +107,12 @@ def gen_system(rng, ncomp=3, nq=8, depth=3, ode=True, typed=False):
             q.rhs = gen_rhs(rng, consts + dyn + [p.idx for p in qs if p.kind == 'alg'], rng.randint(1, depth), typed)
         elif q.kind == 'alg':
             q.rhs = gen_rhs(rng, consts + dyn, rng.randint(1, depth), typed)
-    # an algebraic quantity used by an earlier algebraic one through a state equation is fine; but algebraic ones may only read earlier ones
-    # members
+    finish_members(qs, rng)
+    return dict(ncomp=ncomp, qs=qs, ode=ode, typed=typed)
+
+
+def finish_members(qs, rng):
+    """every quantity gets a member in its home component and in every component whose equations read it"""
     for q in qs:
         q.members[q.home] = ('v%d' % q.idx, rng.choice(BY_DIM[q.dim]))
     for q in qs:
@@ -121,7 +125,27 @@ def gen_system(rng, ncomp=3, nq=8, depth=3, ode=True, typed=False):
             p = qs[k]
             if q.home not in p.members:
                 p.members[q.home] = ('v%d_c%d' % (p.idx, q.home), rng.choice(BY_DIM[p.dim]))
-    return dict(ncomp=ncomp, qs=qs, ode=ode, typed=typed)
+
+
+def chain_system(rng):
+    """a DAE with a chain of computed constants and an implicit equation that reads the end of the chain and a
+    non-constant variable: t; x' = 1 (or x); k; c0 = 2 k; c1 = c0 + 1 [; c2 = c1 * 3]; y = 2 x; z + 0 = y + c_last; w = z + 1,
+    spread over 2-4 components in random order"""
+    ncomp = rng.randint(2, 4)
+    qs = []
+    def add(kind, dim='one', init=None, rhs=None):
+        q = Quantity(len(qs), kind, dim); q.home = rng.randrange(ncomp); q.init = init; q.rhs = rhs; qs.append(q); return q.idx
+    t = add('voi', 'time')
+    x = add('state', 'one', init=rng.choice(['1', '2', '0.5']), rhs=('cn', '1'))
+    k = add('const', 'one', init=rng.choice(['3', '2', '1.5']))
+    c = add('cconst', 'one', rhs=('TIMES', ('cn', '2'), ('q', k)))
+    for j in range(rng.randint(1, 3)):
+        c = add('cconst', 'one', rhs=('PLUS', ('q', c), ('cn', str(j + 1))))
+    y = add('alg', 'one', rhs=('TIMES', ('cn', '2'), ('q', x)))
+    z = add('alg', 'one', rhs=rng.choice([('PLUS', ('q', y), ('q', c)), ('PLUS', ('q', c), ('q', y)), ('TIMES', ('q', y), ('q', c))]))
+    add('alg', 'one', rhs=('PLUS', ('q', z), ('cn', '1')))
+    finish_members(qs, rng)
+    return dict(ncomp=ncomp, qs=qs, ode=True, typed=True, force_implicit={z})
 
 
 def scale(units):
@@ -194,7 +218,18 @@ NLA_BLOCK = '''  <component name="cnla">
   </component>'''
 
 
-def to_cellml(sysd, rng, nla=False, perm=None, rename=None):
+def is_dynamic(qs, q, seen=None):
+    """does the quantity depend, through its equation, on a state or on the variable of integration?"""
+    seen = seen if seen is not None else set()
+    if q.idx in seen:
+        return False
+    seen.add(q.idx)
+    if q.kind in ('state', 'voi'):
+        return True
+    return q.rhs is not None and any(is_dynamic(qs, qs[k], seen) for k in leaves(q.rhs, set()))
+
+
+def to_cellml(sysd, rng, nla=False, perm=None, rename=None, implicit=0.0):
     """CellML text of the system.  The MathML of every equation is generated once and cached in `sysd`; `perm` (a
     random.Random) reorders components, variables, equations and connections without changing them; `rename` maps
     (component index, variable name) to a new name and 'c<i>' to a new component name."""
@@ -208,6 +243,10 @@ def to_cellml(sysd, rng, nla=False, perm=None, rename=None):
                     if q.kind == 'state':
                         lhs = '<apply><diff/><bvar><ci>%s</ci></bvar>%s</apply>' % (qs[0].members[c][0], lhs)
                     rhs = mathml(q.rhs, sysd, c, rng)
+                    if (q.idx in sysd.get('force_implicit', ())) or (implicit and q.kind == 'alg' and is_dynamic(qs, q) and rng.random() < implicit):
+                        # an implicit equation: the unknown is not alone on a side (q + 0 = rhs), so it takes an NLA system
+                        lhs = '<apply><plus/>%s<cn cellml:units="dimensionless">0</cn></apply>' % lhs
+                        sysd.setdefault('implicit', set()).add(q.idx)
                     sysd['eqtext'][q.idx] = '<apply><eq/>%s%s</apply>' % ((rhs, lhs) if rng.random() < 0.2 else (lhs, rhs))
         sysd['nla_block'] = None
         if nla:
